@@ -50,6 +50,7 @@ class ProxyLeak(BaseException):
 
 
 CUR = None  # the active PathState (symbolic) or ConcreteState
+DELTA_MODE = False  # when True every real +,-,*,/ and sqrt result is exact*(1+delta), |delta| <= 2^-53
 
 
 def cur():
@@ -143,7 +144,10 @@ class _ArithMixin:
         a, b = _arith_pair(self, other)
         if swap:
             a, b = b, a
-        return wrap(z3.simplify(op(a, b)))
+        r = op(a, b)
+        if DELTA_MODE and z3.is_real(r):
+            r = cur().delta(r)
+        return wrap(z3.simplify(r))
 
     def __add__(self, o): return self._bin(o, lambda a, b: a + b)
     def __radd__(self, o): return self._bin(o, lambda a, b: a + b, True)
@@ -158,7 +162,14 @@ class _ArithMixin:
         zero = SymBool(z3.simplify(td == 0))
         if zero:  # forks: the ZeroDivisionError outcome is a path of its own
             raise ZeroDivisionError("float division by zero")
-        return SymReal(z3.simplify(tn / td))
+        td_s = z3.simplify(td)
+        if z3.is_rational_value(td_s) or z3.is_int_value(td_s):
+            r = tn / td_s
+        else:
+            r = cur().quotient(tn, td_s)       # purified: fresh q with q * td = tn (td != 0 on this path)
+        if DELTA_MODE:
+            r = cur().delta(r)
+        return SymReal(z3.simplify(r))
 
     def __truediv__(self, o):
         if not (is_sym(o) or _num_ok(o)):
@@ -601,26 +612,21 @@ def solve_exact(assertions, timeout_ms=VC_TIMEOUT_MS, want_model=True):
 
 
 def cvc5_check(smt2: str, timeout_ms: int) -> str:
+    """cvc5 as a separate process (hard time limit: its in-process time limit is not always honoured in nl-cov)."""
+    import subprocess
+    import tempfile
     try:
-        import cvc5
-        slv = cvc5.Solver()
-        slv.setOption("tlimit-per", str(timeout_ms))
-        slv.setOption("nl-cov", "true")
-        slv.setLogic("ALL")
-        parser = cvc5.InputParser(slv)
-        parser.setStringInput(cvc5.InputLanguage.SMT_LIB_2_6, smt2, "vc")
-        sm = parser.getSymbolManager()
-        res = None
-        while True:
-            cmd = parser.nextCommand()
-            if cmd.isNull():
-                break
-            out = cmd.invoke(slv, sm)
-            o = str(out).strip()
-            if o in ("sat", "unsat", "unknown"):
-                res = o
-        return res or "unknown"
-    except Exception as e:  # noqa
+        with tempfile.NamedTemporaryFile("w", suffix=".smt2", delete=False) as f:
+            f.write("(set-logic ALL)\n" + smt2)
+            name = f.name
+        try:
+            r = subprocess.run(["/usr/bin/cvc5", f"--tlimit={timeout_ms}", "--nl-cov", name], capture_output=True,
+                               text=True, timeout=timeout_ms / 1000 + 3)
+            out = r.stdout.strip().splitlines()
+            return out[-1] if out and out[-1] in ("sat", "unsat") else "unknown"
+        finally:
+            os.unlink(name)
+    except Exception:  # noqa
         return "unknown"
 
 
@@ -643,6 +649,7 @@ class PathState:
         self.solver.set("timeout", FEAS_TIMEOUT_MS)
         self.fresh_n = 0
         self._sqrt_cache = {}
+        self._div_cache = {}
         self._cleanups = []
         self.results = []            # buffered ensure results, committed by the explorer if this shard owns the path
         self.covers = []
@@ -705,7 +712,7 @@ class PathState:
     # ---- math
     def sqrt(self, x, complex_on_negative=False):
         tx = to_real(term(x))
-        key = tx.sexpr()
+        key = z3.simplify(tx, som=True, sort_sums=True).sexpr()     # canonical polynomial form: sqrt((a-b)^2) and sqrt((b-a)^2) share a symbol
         if key not in self._sqrt_cache:
             self.fresh_n += 1
             s = z3.Real(f"sqrt!{self.fresh_n}")
@@ -716,7 +723,70 @@ class PathState:
                 raise ProxyLeak("x ** 0.5 with x < 0 feasible (complex result)")
             raise ValueError("math domain error")
         self._add(z3.And(s >= 0, s * s == tx))
+        if DELTA_MODE:
+            return SymReal(z3.simplify(self.delta(s)))
         return SymReal(s)
+
+    def quotient(self, tn, td):
+        key = (z3.simplify(tn, som=True, sort_sums=True).sexpr(), z3.simplify(td, som=True, sort_sums=True).sexpr())
+        if key not in self._div_cache:
+            self.fresh_n += 1
+            q = z3.Real(f"quot!{self.fresh_n}")
+            self._div_cache[key] = q
+            self._add(q * td == tn)
+        return self._div_cache[key]
+
+    PI_UB = Fraction(3141592653589794, 10**15)   # a rational just above pi
+
+    def acos(self, x):
+        """acos as an uninterpreted function with its range axiom; raises ValueError outside [-1, 1] (domain obligation)."""
+        tx = z3.simplify(to_real(term(x)))
+        if bool(SymBool(z3.simplify(z3.Or(tx < -1, tx > 1)))):
+            raise ValueError("math domain error")
+        f = z3.Function("acos", z3.RealSort(), z3.RealSort())
+        a = f(tx)
+        self._add(z3.And(a >= 0, a <= real_val(self.PI_UB)))
+        self._add(z3.Implies(tx == 1, a == 0))
+        return SymReal(a)
+
+    def sin(self, v):
+        tv = to_real(term(v))
+        if z3.is_app(tv) and tv.decl().name() == "acos":
+            x0 = tv.arg(0)                       # sin(acos x) = sqrt(1 - x^2), -1 <= x <= 1 known: sin never raises
+            tx = z3.simplify(1 - x0 * x0)
+            key = z3.simplify(tx, som=True, sort_sums=True).sexpr()
+            if key not in self._sqrt_cache:
+                self.fresh_n += 1
+                self._sqrt_cache[key] = z3.Real(f"sqrt!{self.fresh_n}")
+            sq = self._sqrt_cache[key]
+            self._add(z3.And(sq >= 0, sq * sq == tx))
+            return SymReal(z3.simplify(self.delta(sq))) if DELTA_MODE else SymReal(sq)
+        f = z3.Function("sin", z3.RealSort(), z3.RealSort())
+        r = f(tv)
+        self._add(z3.And(r >= -1, r <= 1))
+        return SymReal(r)
+
+    def cos(self, v):
+        tv = to_real(term(v))
+        if z3.is_app(tv) and tv.decl().name() == "acos":
+            return SymReal(tv.arg(0))
+        f = z3.Function("cos", z3.RealSort(), z3.RealSort())
+        r = f(tv)
+        self._add(z3.And(r >= -1, r <= 1))
+        return SymReal(r)
+
+    def delta(self, t):
+        """delta-mode: the IEEE-754 standard model  fl(x) = x * m,  |m - 1| <= 2^-53  (no under/overflow).
+        The rounded value is a fresh symbol r = x*m together with the (redundant) sign facts, which keep the
+        sign reasoning linear for the solver."""
+        self.fresh_n += 1
+        m = z3.Real(f"ulpf!{self.fresh_n}")
+        r = z3.Real(f"fl!{self.fresh_n}")
+        u = z3.Q(1, 2 ** 53)
+        self._add(z3.And(m >= 1 - u, m <= 1 + u))
+        self._add(r == t * m)
+        self._add(z3.And((r > 0) == (t > 0), (r < 0) == (t < 0)))
+        return r
 
     def pow2(self, n):
         f = z3.Function("pow2", z3.IntSort(), z3.IntSort())
@@ -833,6 +903,13 @@ class PathState:
                 viol = dict(model=self._model_dict(model), decisions=list(self.decisions), note=note, goal=goal[:600])
         self.results.append((name, verdict, backend, time.time() - t0, viol, sample))
         return True if verdict == "unsat" else (False if verdict == "sat" else None)
+
+    def lemma(self, name, cond):
+        """Ghost lemma: proved as an obligation under the current path condition, then available as a hypothesis."""
+        r = self.ensure(name, cond)
+        if r is True:
+            self.assume(cond)
+        return r
 
     def _final_check(self, extra):
         return solve_exact(self.pc + extra, self.ex.vc_timeout_ms)
@@ -996,6 +1073,15 @@ class ConcreteState:
     def sqrt(self, x, complex_on_negative=False):
         return math.sqrt(x)
 
+    def acos(self, x):
+        return math.acos(x)
+
+    def sin(self, x):
+        return math.sin(x)
+
+    def cos(self, x):
+        return math.cos(x)
+
     def call(self, fn, *args, **kwargs):
         try:
             return Outcome(value=fn(*args, **kwargs))
@@ -1012,6 +1098,9 @@ class ConcreteState:
             return True
         self.failed.append(name)
         return False
+
+    def lemma(self, name, cond):
+        return self.ensure(name, cond)
 
     def note(self, key, value):
         self.notes[key] = repr(value)
